@@ -21,6 +21,31 @@ def stream_event(kind, key, nonce, rounds, m, ctr0=0, op='enc', prehash=None):
     except Exception as ex: e['raised'] = type(ex).__name__
     return e
 
+def stream_history(kind, key, rounds, rb):
+    """ONE cipher object: the caller re-uses one nonce object and edits it in place between calls; a nonce of a wrong size is refused in between
+    and the same integer is then passed as a proper 64-bit nonce.  Every recorded call is still enc(v, M) = M xor keystream(key, value of v at call time)."""
+    from crysp.bits import Bits
+    from crysp.salsa20 import Salsa20
+    from crysp.chacha import Chacha
+    out = []
+    try: o = (Salsa20 if kind == 'salsa' else Chacha)(Bits(key, bitorder=1), rounds)
+    except Exception: return out
+    def call(vobj, nonce_bytes, m, op='enc'):
+        e = dict(op=kind, key=B(key), nonce=B(nonce_bytes), rounds=rounds, ctr0=limbs(0, 4), m=B(m), raised='', obs=[], dir=op)
+        try:
+            r = getattr(o, op)(vobj, m); e['obs'] = B(r) if isinstance(r, (bytes, bytearray)) else [-1]
+        except Exception as ex: e['raised'] = type(ex).__name__
+        out.append(e)
+    n1, n2, n3 = rb(8), rb(8), (5).to_bytes(8, 'little')
+    v = Bits(n1, bitorder=1)
+    call(v, n1, rb(100)); call(v, n1, rb(70))
+    v[0:64] = Bits(n2, bitorder=1)                      # the SAME nonce object now holds another value
+    call(v, n2, rb(100)); call(v, n2, rb(130), 'dec')
+    try: o.enc(Bits(5), rb(40))                         # refused: the nonce is not 64 bits wide
+    except Exception: pass
+    call(Bits(n3, bitorder=1), n3, rb(90)); call(Bits(n1, bitorder=1), n1, rb(64))
+    return out
+
 def run(ctx):
     ctx.claim_exhaustive = False      # keys / messages / parameters are sampled over an enumerated grid; only the spec-level models are exhaustive
     rnd = ctx.rnd; big = ctx.big()
@@ -52,6 +77,9 @@ def run(ctx):
         for klen in (16, 32):
             ev.append(stream_event(kind, rb(klen), rb(8), 20, rb(70), prehash=rb(64))); ev.append(stream_event(kind, rb(klen), rb(8), 12, rb(70), prehash=bytes(64), op='dec'))
             ctx.mark((kind, 'hash() before enc', klen))
+    for kind in ('salsa', 'chacha'):
+        for klen, rounds in ((32, 20), (16, 8)):
+            ev += stream_history(kind, rb(klen), rounds, rb); ctx.mark((kind, 'nonce object edited in place / refused nonce', klen))
     from crysp.salsa20 import Salsa20
     for cls in range(8 if big else 4):
         x = [bytes(64), b'\xff' * 64, bytes(range(64)), rb(64), rb(64), rb(64), rb(64), rb(64)][cls]
